@@ -145,6 +145,22 @@ impl Cfg {
     }
 }
 
+/// counting wrapper around the dominance checker
+struct MonDom<'a, S> { inner: &'a (dyn DominanceChecker<State = S> + Send + Sync), queries: std::sync::atomic::AtomicU64, dominated: std::sync::atomic::AtomicU64 }
+impl<S> DominanceChecker for MonDom<'_, S> {
+    type State = S;
+    fn clear_layer(&self, depth: usize) { self.inner.clear_layer(depth) }
+    fn is_dominated_or_insert(&self, state: Arc<S>, depth: usize, value: isize) -> DominanceCheckResult {
+        let dbg = if std::env::var("VH_TRACE").is_ok() { Some(format!("{:?}", std::any::type_name::<S>())) } else { None };
+        let r = self.inner.is_dominated_or_insert(state.clone(), depth, value);
+        if dbg.is_some() { eprintln!("  dom query depth={depth} value={value} -> dominated={} thr={:?}  [state ptr {:p}]", r.dominated, r.threshold, Arc::as_ptr(&state)); }
+        self.queries.fetch_add(1, AO::Relaxed);
+        if r.dominated { self.dominated.fetch_add(1, AO::Relaxed); }
+        r
+    }
+    fn cmp(&self, a: &S, val_a: isize, b: &S, val_b: isize) -> std::cmp::Ordering { self.inner.cmp(a, val_a, b, val_b) }
+}
+
 struct WidthBox(WidthKind, usize);
 impl<S> WidthHeuristic<S> for WidthBox {
     fn max_width(&self, x: &SubProblem<S>) -> usize {
@@ -186,6 +202,8 @@ pub struct Outcome {
     pub nontrivial: BTreeMap<&'static str, HashSet<u64>>,
     pub sched: Option<SchedReport>,
     pub watchdog_deadlock: bool,
+    pub dom_queries: u64,
+    pub dom_pruned: u64,
     pub wall: Duration,
 }
 impl Outcome {
@@ -274,7 +292,9 @@ pub fn run_solver<F: Fam>(inst: &Arc<F>, cfg: &Cfg) -> Outcome {
     let dom_box = inst.mk_dominance();
     let empty_dom = EmptyDominanceChecker::<F::S>::default();
     let isolated = !cfg.cache && dom_box.is_none();
-    let dom: &(dyn DominanceChecker<State = F::S> + Send + Sync) = match &dom_box { Some(b) => b.as_ref(), None => &empty_dom };
+    let dom_inner: &(dyn DominanceChecker<State = F::S> + Send + Sync) = match &dom_box { Some(b) => b.as_ref(), None => &empty_dom };
+    let mon_dom = MonDom { inner: dom_inner, queries: Default::default(), dominated: Default::default() };
+    let dom: &(dyn DominanceChecker<State = F::S> + Send + Sync) = &mon_dom;
     let width = WidthBox(cfg.width, inst.nb_variables());
     let abort = Arc::new(AtomicBool::new(false));
     let cutoff = CountingCutoff::new(cfg.cutoff_k, abort.clone());
@@ -362,6 +382,8 @@ pub fn run_solver<F: Fam>(inst: &Arc<F>, cfg: &Cfg) -> Outcome {
     set_ctx::<F::S>(None);
     set_cache_stats(None);
     out.polls = cutoff.polls.load(AO::SeqCst);
+    out.dom_queries = mon_dom.queries.load(AO::Relaxed);
+    out.dom_pruned = mon_dom.dominated.load(AO::Relaxed);
     out.cutoff_fired = cutoff.fired.load(AO::SeqCst);
     out.panics = take_panics();
     if fstats.livelock.load(AO::SeqCst) { out.livelock = fstats.livelock_witness.lock().unwrap().clone(); }
